@@ -165,6 +165,7 @@ def _rules():
         ],
         "identity": [
             lambda R, c, rid: shared.branch_identity(R, c, rid),
+            lambda R, c, rid: shared.range_boundaries(R, c, rid),
         ],
         "weak-wire": [
             lambda R, c, rid: shared.weak_link_flags(R, c, rid),
